@@ -341,7 +341,7 @@ def tree_check(ctx, props, focus, replay=None):
         kind = rng.choice(['small', 'small', 'str', 'bin', 'case'])
         nk = rng.choice([3, 6, 10, 16, 26]) if kind == 'small' else rng.choice([6, 20, 40])
         keys = key_universe(rng, nk, kind)
-        cmpn = rng.choice(['byte', 'default', 'default', 'rev', 'len', 'ci', 'errno']) if kind != 'case' else 'ci'
+        cmpn = rng.choice(['byte', 'default', 'default', 'rev', 'len', 'ci', 'errno', 'big', 'ext']) if kind != 'case' else 'ci'
         hists.append((['cmp ' + cmpn, 'dump 1'], gen_history(rng, 150 if quick else 300, keys, mixes[mixname])))
     # histories with more than 256 traversal starts (8-bit epoch) and root changes in between
     for i in range(2 if quick else 12):
@@ -420,17 +420,33 @@ def tree_check(ctx, props, focus, replay=None):
                   [b'key', b'key\0', b'key\0x', b'keys', b'kez', b'k'], [b'abcdefgh', b'abcdefghi', b'abcdefg', b'abcdefgh\0', b'abcdefgi']):
         for sub in (chain, chain[1:], chain[::2], chain[1::2]):
             probes = list(dict.fromkeys([k[:j] for k in chain for j in range(1, len(k) + 1)] + [k + b for k in chain for b in (b'\0', b'\xff')]))
-            for cmpname in ('default', 'byte', 'rev'):
+            for cmpname in ('default', 'byte', 'rev', 'big', 'ext'):
                 ops = ['put %s 01' % hexs(k) for k in sub]
                 for q in probes:
                     ops.append('near %s %d' % (hexs(q), rng.choice([0, 1, len(sub) + 2])))
                 hists.append((['cmp ' + cmpname, 'dump 0'], ops))
+    # fills in strictly descending and strictly ascending order to the sizes 2^(k+1)-2 (deepest legal left spine) and neighbours; then
+    # every key, the smallest, the greatest and absent keys are looked up with the comparisons counted (bound 2*log2(n+1))
+    for n in ([6, 14, 30, 62, 63] if quick else [6, 14, 30, 33, 62, 63, 126, 254, 510, 1022]):
+        ks = [b'%05d' % i for i in range(1000, 1000 + 2 * n, 2)]
+        for order in (list(reversed(ks)), ks):
+            ops = ['put %s 01' % hexs(k) for k in order]
+            ops += ['get %s' % hexs(k) for k in (ks if n <= 126 else ks[:40] + ks[-40:])] + ['get %s' % hexs(b'00000'), 'get %s' % hexs(b'99999'), 'get %s' % hexs(ks[0] + b'x')]
+            hists.append((['cmp byte', 'dump 0'], ops))
     # large histories, structure summarised
     for i in range(1 if quick else 6):
         nk = 600 if quick else rng.choice([1000, 3000, 5000])
         keys = key_universe(rng, nk, 'str')
         hists.append((['cmp ' + rng.choice(['byte', 'rev']), 'dump 0'], gen_history(rng, 2500 if quick else 12000, keys, mixes[emphasis][:7] + [0.2, 0.5])))
     nb = run_histories(ctx, exe, hists, 'random', focus)
+    # the same histories on an unoptimised build of library and harness (-O0): code whose meaning rests on signed overflow or on the
+    # evaluation order behaves differently there (e.g. the negation of a comparator result of INT_MIN); search only, same oracle
+    exe0, msg0 = ctx.cc('h_tree_O0', CORE_SRCS, ['h_tree.c'], cflags=['-O0'])
+    if exe0 is None:
+        ctx.notes.append('unoptimised build unavailable: ' + msg0[-300:])
+    else:
+        sub0 = [h for i, h in enumerate(hists) if quick or i % 4 == 0 or h[0][0] in ('cmp ext', 'cmp big')]
+        nb += run_histories(ctx, exe0, sub0, 'random-O0', focus)
     # bounded-exhaustive: every reachable shape over K keys, every put/remove from it
     K = 8 if quick else 12
     hdr, bh, nstates = bfs_shapes(ctx, K)
